@@ -37,6 +37,7 @@ CONSTANTS Txns,       \* transaction ids
           MaxOps,     \* get/set/delete operations per transaction
           MaxCount,   \* Options.MaxBatchCount (0: unlimited)
           AllowClose, \* whether DB.Close may happen
+          WithScan,   \* whether transactions iterate (Txn.NewIterator)
           Dev,        \* set of enabled deviations
           MaxHist     \* generation: history length at which a behaviour is printed (0: never)
 
@@ -113,6 +114,19 @@ Get(t, k) ==
     /\ Log([op |-> "Get", t |-> t, k |-> k])
     /\ UNCHANGED <<nextTs, committed, lastCleanup, pendTx, lastIdx, rDone, store, closed, st, rts, wr, cnt, clog, cts>>
 
+\* Txn.NewIterator (forward, default options) run to the end: every yielded key -- own pending writes
+\* included -- is added to the read set (TxnIterator.advance -> addReadKey); keys that are absent from the
+\* snapshot are not tracked (no phantom protection, and the property does not ask for it)
+Overlay(t, k) == IF k \in DOMAIN wr[t] THEN wr[t][k] ELSE Lookup(k, rts[t])
+Scan(t) ==
+    /\ WithScan /\ st[t] = "active" /\ ~closed /\ nops[t] < MaxOps
+    /\ nops' = [nops EXCEPT ![t] = @ + 1]
+    /\ LET live == {k \in Keys : Overlay(t, k) # TOMB}
+       IN /\ reads' = [reads EXCEPT ![t] = IF IsUpdate(t) THEN @ \cup {FP[k] : k \in live} ELSE @]
+          /\ rlog' = [rlog EXCEPT ![t] = @ \cup {<<k, Lookup(k, rts[t])>> : k \in live \ DOMAIN wr[t]}]
+    /\ Log([op |-> "Scan", t |-> t])
+    /\ UNCHANGED <<nextTs, committed, lastCleanup, pendTx, lastIdx, rDone, store, closed, st, rts, wr, cnt, clog, cts>>
+
 \* Txn.Set / Txn.Delete through modify(): checkSize first
 Write(t, k, del) ==
     /\ st[t] = "active" /\ IsUpdate(t) /\ nops[t] < MaxOps
@@ -176,7 +190,7 @@ Close ==
     /\ Log([op |-> "Close"])
     /\ UNCHANGED <<nextTs, committed, lastCleanup, pendTx, lastIdx, rDone, store, st, rts, reads, wr, cnt, nops, clog, rlog, cts>>
 
-Next == \/ \E t \in Txns : Begin(t) \/ Commit(t) \/ Discard(t)
+Next == \/ \E t \in Txns : Begin(t) \/ Commit(t) \/ Discard(t) \/ Scan(t)
         \/ \E t \in Txns, k \in Keys : Get(t, k) \/ Write(t, k, FALSE) \/ Write(t, k, TRUE)
         \/ Close
 Spec == Init /\ [][Next]_vars
